@@ -181,7 +181,7 @@ PROPS = {
         "harness": "c17",
         "quick": {"workers": 8, "cases": 2000, "size": 40, "min_records": 6},
         "thorough": {"workers": 16, "cases": 25000, "size": 70, "min_records": 6},
-        "min_nontrivial_frac": 0.3,
+        "min_nontrivial_frac": 0.08,
         "rule": "histories over a pool of <= 7 OndriksMTBDD handles (leaf type int, or OrdVector<size_t> in 1/3 of the cases) over 6 variables: constructor (cube with don't-cares, value, default), constant, Apply1/2/3 with "
                 "table-driven leaf operations (arbitrary functions, max, min), Project (variable set, idempotent combiner max/min), Rename (strictly increasing map), ExtendWith (prefix cube above all variables of the operand), "
                 "GetMtbddForPrefix (concrete prefix), copy, assignment, destruction, VoidApply1/2 (visited leaves / leaf pairs = co-occurring values). After EVERY step GetValue on all 64 total assignments of every live handle "
